@@ -3155,6 +3155,8 @@ def groupby_scan(
     by_: np.ndarray
     (by_,) = bys
     has_dask = is_duck_dask_array(array) or is_duck_dask_array(by_)
+    if by_.ndim > 1 and by_.size != array.shape[-1]:
+        raise NotImplementedError("Scans are only supported for one-dimensional labels along the last axis of `array`.")
 
     if array.dtype.kind in "Mm":
         cast_to = array.dtype
